@@ -411,6 +411,8 @@ def generic_replay(res, path, binname, only=None, env_keys=("ty",)):
     env = {}
     if "ty" in mm and "ty" in env_keys:
         env["HX_ONLY_TY"] = mm["ty"]
+    if "hx_seed" in mm:
+        env["HX_SEED"] = str(mm["hx_seed"])
     p = run_bin(cfg, binname, [cases, out], env_extra=env)
     if not os.path.exists(out):
         raise ToolError(f"replay crashed: {p.stderr[-2000:]}")
